@@ -127,7 +127,9 @@ func monitorC05(c *Ctx, r *BlockRec) {
 		}
 	} else {
 		// reward block: the sum may grow by at most the reward set for the ended term
-		reward := termRewardFromState(r.Pre, b.Height())
+		// (a reward-setting transaction inside the reward block itself still counts: the
+		// issue step reads the state after the block's transactions)
+		reward := termRewardFromState(r.Post, b.Height())
 		if delta.Cmp(reward) > 0 {
 			c.Fail("C05/reward/over-issue", "reward block %d grew the sum of balances by %s, more than the term reward %s", b.Height(), delta, reward)
 		}
@@ -136,7 +138,33 @@ func monitorC05(c *Ctx, r *BlockRec) {
 		}
 		if delta.Sign() > 0 {
 			c.Probe("reward_issued")
-			// only deputies' income addresses (or miner addresses when no income address) gain by it
+		}
+		// only deputies' income addresses gain by the reward: every account whose balance grew in
+		// a reward block must be a transaction recipient, the fee receiver, a candidate (deposit
+		// refund, conservation-neutral) or an income address named by some candidate profile
+		allowed := map[common.Address]bool{r.Net.Deputies[r.Deputy].Income.Addr: true, params.DepositPoolAddress: true} // deposits of register txs go to the pool
+		for _, tx := range allTxs(b) {
+			if tx.To() != nil {
+				allowed[*tx.To()] = true
+			}
+			allowed[tx.GasPayer()] = true // gas refund of a box/sub transaction nets out, payer may be recipient elsewhere
+		}
+		for a, d := range r.Pre {
+			if strings.Contains(d["profile"], "isCandidate=") {
+				allowed[a] = true
+				if inc := profileField(d["profile"], types.CandidateKeyIncomeAddress); inc != "" {
+					if ia, err := common.StringToAddress(inc); err == nil {
+						allowed[ia] = true
+					}
+				}
+			}
+		}
+		if !contracts {
+			for a, d := range r.Post {
+				if d.big("a.balance").Cmp(r.Pre[a].big("a.balance")) > 0 && !allowed[a] {
+					c.Fail("C05/reward/foreign-recipient", "reward block %d: account %s gained %s -> %s although it is neither a transaction recipient, the fee receiver, a candidate nor any candidate's income address", b.Height(), a.Hex(), r.Pre[a]["a.balance"], d["a.balance"])
+				}
+			}
 		}
 	}
 	// the miner's income address receives exactly the fees, when it is not otherwise a party
@@ -433,7 +461,11 @@ func monitorProp(id string, kinds []int, variants []string, mon func(c *Ctx, r *
 			g := NewTxGen(net, c, "tx")
 			blocks := 0
 			var last *BlockRec
-			chainRun(c, net, g, f, ChainRunOpts{Kinds: kinds, MaxBlocks: 6, MaxTxs: 6, Terms: terms, SingleTx: c.Var == "single",
+			maxBlocks := 6
+			if terms {
+				maxBlocks = 15 // reach the reward block of the first term (height T+I+1 <= 13)
+			}
+			chainRun(c, net, g, f, ChainRunOpts{Kinds: kinds, MaxBlocks: maxBlocks, MaxTxs: 6, Terms: terms, SingleTx: c.Var == "single",
 				OnBlock: func(r *BlockRec) bool {
 					mon(c, r)
 					blocks++
